@@ -911,7 +911,6 @@ theorem parsed_edgeRT (env : DepEnv) (a : Contracts.Parser.Ast) (h : a.Wf) {g : 
 
 section StringRT
 open Contracts.RoundTrip (V4 graphFromTucan)
-open Contracts.Parser (PTree)
 
 /-- the graph parsed from a string the pipeline emitted has empty bond data and satisfies `EdgeRT` -/
 theorem parsed_of_tucan_edgeRT (antlr : Str → Option PTree) (hV4 : V4 antlr) {env : DepEnv} (envp : DepEnv)
@@ -989,5 +988,33 @@ theorem C09_string_bonds (antlr : Str → Option PTree) (hV4 : V4 antlr) {env en
       rfl
 
 end StringRT
+
+/-! ## sanity checks of `bondData` on concrete data (compared with networkx 3.x via `graph_from_molecule`), axioms -/
+
+/-- one entry: its dict, in both orientations; unlisted pair: nothing -/
+example : bondData (Dict.ofPairs [((0, 1), bondAttrs 2)]) 1 0 = some (bondAttrs 2) ∧
+    bondData (Dict.ofPairs [((0, 1), bondAttrs 2)]) 0 1 = some (bondAttrs 2) ∧
+    bondData (Dict.ofPairs [((0, 1), bondAttrs 2)]) 0 2 = none := by decide
+
+/-- conflicting duplicates: bond lines `1-2` type 1, `2-1` type 2, `1-2` type 3 give type **2** — the `dict` keeps the
+position of the first `(0, 1)` entry (value 3), so the `(1, 0)` entry is applied last.  "The last bond line wins" is
+false in general; it holds when all lines on a pair agree (`bondData_ofPairs_same`). -/
+example : bondData (Dict.ofPairs [((0, 1), bondAttrs 1), ((1, 0), bondAttrs 2), ((0, 1), bondAttrs 3)]) 0 1 =
+    some (bondAttrs 2) := by decide
+
+/-- entries in both directions are merged key by key -/
+example : bondData (Dict.ofPairs [((0, 1), ⟨[("bond_type", Val.int 1), ("x", Val.int 5)]⟩), ((1, 0), ⟨[("y", Val.int 7)]⟩)]) 1 0 =
+    some ⟨[("bond_type", Val.int 1), ("x", Val.int 5), ("y", Val.int 7)]⟩ := by decide
+
+#print axioms graph_from_molecule_edges
+#print axioms fileMeaning_plain_graph_bonds
+#print axioms graph_from_molfile_text_render_ok_bonds
+#print axioms graph_from_molfile_text_v2000_bonds
+#print axioms writeRead_iso_bonds
+#print axioms C09_tucan_bonds
+#print axioms graph_from_tree_plain
+#print axioms parsed_edgeRT
+#print axioms parsed_of_tucan_edgeRT
+#print axioms C09_string_bonds
 
 end Contracts.Bonds
